@@ -957,3 +957,43 @@ def _check_inside(c, fi, state, val, st, SA, SB):
         inst = 'evaluate_exact end point'
     c.add('K5', inst, fi.where(st), ok, what + '; time arguments (t, t_a, '
           't_b) in order', construct=inst)
+
+
+# --------------------------------------------------------------------------
+# R-difference-only (C12): guards compare two time values
+# --------------------------------------------------------------------------
+def check_difference_only(prog, report):
+    from .absint import to_lin, subst
+    sites = [(SL, 'g', ('a', 'b')), (SL, 'f', ('a', 'b')),
+             (SL, 'double_time_integrated_kernel', ('a', 'b', 'c', 'd')),
+             (SLX, 'fint_1', ('a', 'b')), (SLX, 'fint_2', ('a', 'b')),
+             (SLX, 'fint_3', ('a', 'b')), (SLX, 'fint_4', ('a', 'b')),
+             (SLX, 'spacetime_integrated_kernel_1', ('a', 'b', 'c', 'd')),
+             (SLX, 'spacetime_integrated_kernel_2', ('a', 'b', 'c', 'd')),
+             (SLX, 'spacetime_integrated_kernel_3', ('a', 'b', 'c', 'd')),
+             (SLX, 'spacetime_integrated_kernel_4', ('a', 'b', 'c', 'd'))]
+    for file, q, tp in sites:
+        fi = prog.func(file, q)
+        tset = set(tp)
+        bad = []
+        n = 0
+        for node in ast.walk(fi.node):
+            if isinstance(node, ast.Compare):
+                names = {m.id for m in ast.walk(node)
+                         if isinstance(m, ast.Name)}
+                if not (names & tset):
+                    continue
+                n += 1
+                parts = [node.left] + list(node.comparators)
+                for l, r in zip(parts, parts[1:]):
+                    d = to_lin(l) - to_lin(r)
+                    if not all(a in tset for a in d.c) or sum(
+                            d.c.values()) != 0 or d.k != 0:
+                        bad.append(text(node))
+        report.check(
+            not bad and n >= 1, 'R-difference-only', q, fi.where(),
+            'every guard on the time arguments compares two time values '
+            '(coefficients sum to zero, no constant): invariant under a '
+            'common shift; offending: %s' % bad,
+            construct=q + ': time guards are shift invariant')
+    report.floor('R-difference-only', 11)
